@@ -451,11 +451,15 @@ type endless struct {
 	chunk    int
 	consumed int
 	maxAsk   int
+	giveUp   int // the harness stops feeding after this many bytes (the verdict is then a violation, not a hang)
 }
 
 func (e *endless) Read(p []byte) (int, error) {
 	if len(p) > e.maxAsk {
 		e.maxAsk = len(p)
+	}
+	if e.giveUp > 0 && e.consumed > e.giveUp {
+		return 0, io.ErrUnexpectedEOF
 	}
 	n := e.chunk
 	if n <= 0 || n > len(p) {
@@ -489,9 +493,9 @@ func runHostile(c hostileCase) (r pbt.Result) {
 	head = ref.AppendUvarint(head, 7)
 	head = ref.AppendUvarint(head, 1)
 	head = ref.AppendUvarint(head, c.Declared)
-	e := &endless{head: head, chunk: c.Chunk}
-	rd := drpcwire.NewReaderWithOptions(e, drpcwire.ReaderOptions{MaximumBufferSize: c.Max})
 	bound := 4*eff + 64<<10
+	e := &endless{head: head, chunk: c.Chunk, giveUp: 2*bound + len(head)}
+	rd := drpcwire.NewReaderWithOptions(e, drpcwire.ReaderOptions{MaximumBufferSize: c.Max})
 	got := 0
 	for {
 		_, err := rd.ReadPacket()
@@ -615,4 +619,41 @@ func TestC09Stall(t *testing.T) {
 		return stallCase{Prelude: rapid.IntRange(0, 4).Draw(t, "prelude"), Empties: rapid.SampledFrom([]int{0, 1, 50, 98, 99, 100, 101, 150, 250}).Draw(t, "empties")}
 	})
 	pbt.Check(t, pbt.Prop[stallCase]{ID: "C09", Name: "stall", Gen: pbt.G(gen), Run: runStall})
+}
+
+// TestC13ReaderBytes: arbitrary (not frame-structured) byte strings through the reader under
+// several chunkings; same oracle as C09 (the reference handles any bytes).
+func TestC13ReaderBytes(t *testing.T) {
+	gen := rapid.Custom(func(t *rapid.T) c09Case {
+		var c c09Case
+		c.Max = rapid.SampledFrom([]int{1, 16, 100, 5000, 0}).Draw(t, "max")
+		switch rapid.IntRange(0, 2).Draw(t, "kind") {
+		case 0:
+			c.Tail = rapid.SliceOfN(rapid.Byte(), 0, 200).Draw(t, "raw")
+		case 1:
+			n := rapid.IntRange(0, 60).Draw(t, "n")
+			c.Tail = make([]byte, n)
+			for i := range c.Tail {
+				c.Tail[i] = rapid.SampledFrom([]byte{0x00, 0x01, 0x02, 0x03, 0x04, 0x05, 0x7f, 0x80, 0xff, 0x81}).Draw(t, "b")
+			}
+		default: // a few valid frames, then bit flips anywhere
+			base := genC09().Draw(t, "base")
+			c.Max = base.Max
+			c.Tail = base.bytes()
+			for k := rapid.IntRange(1, 3).Draw(t, "flips"); k > 0 && len(c.Tail) > 0; k-- {
+				i := rapid.IntRange(0, len(c.Tail)-1).Draw(t, "pos")
+				c.Tail[i] ^= 1 << uint(rapid.IntRange(0, 7).Draw(t, "bit"))
+			}
+		}
+		for i := 0; i < 2; i++ {
+			c.Parts = append(c.Parts, genPartition.Draw(t, "part"))
+		}
+		return c
+	})
+	pbt.Check(t, pbt.Prop[c09Case]{ID: "C13", Name: "reader_bytes", Gen: pbt.G(gen), Run: func(c c09Case) pbt.Result {
+		r := runC09(c)
+		r.NonTrivial = len(c.Tail) >= 4
+		r.Sample = map[string]any{"max": c.Max, "bytes": fmt.Sprintf("%x", clip(c.Tail)), "partitions": c.Parts}
+		return r
+	}})
 }
